@@ -1335,7 +1335,7 @@ def l2_product_mismatch(ctx, case, d):
     for t in ('G', 'GPHASE', 'GAMP_PHASE'):
         if not all(n in by and t in by[n][1]['types'] for n in l2):
             continue
-        streams = [[[q(Fr(solution_offset(by[n][0]))), [wire_opv((Fr(1, 2 ** (by[n][0] + 1)), Fr(0)))]]] for n in l2]
+        streams = [[[q(Fr(solution_offset(*by[n]))), [wire_opv((Fr(1, 2 ** (by[n][0] + 1)), Fr(0)))]]] for n in l2]
         mo = streams[0] if len(streams) == 1 else ctx.model([[14, [7, streams]]])[0]
         try:
             sd = d.sensor.get('Calibration/Products/l2/' + t, extract=False).get()
@@ -1346,6 +1346,50 @@ def l2_product_mismatch(ctx, case, d):
                for ts, v in zip(sd.timestamp, sd.value)]
         if [g[0] for g in got] != [fq(m[0]) for m in mo] or not all(same(g[1], parse_opv(m[1][0])) for g, m in zip(got, mo)):
             return t, [[str(g[0]), repr(g[1])] for g in got], mo
+    return None
+
+
+def l2_corrections_mismatch(ctx, case, d):
+    """self-cal corrections of a whole data set with several targets: Calibration/Corrections/l2/<gain type>/<inp> per
+    dump against the spec (per-target interpolation, no flux) fed with the product sensor katdal extracted (event
+    placement is C10) and the data set's own target sequence"""
+    reg, l2 = spec_streams(case['tel'], case['archived'])
+    if 'l2' not in reg:
+        return None
+    by = {st['name']: st for st in case['tel']}
+    first = by[l2[0]]
+    have = [a + p for p in first['pols'] for a in first['ants']]
+    inps = [a + p for a in case['ants'] for p in 'hv' if a + p in have]
+    if not inps:
+        return None
+    N = case['T']
+    per_dump = [int(x) for x in d.sensor['Observation/target_index']]
+    for t in ('GPHASE', 'GAMP_PHASE', 'G'):
+        if not all(n in by and t in by[n]['types'] for n in l2):
+            continue
+        prod = get_cal_product(d.sensor, 'l2', t)
+        events, sols = [], []
+        for e, v in cat_segments(prod):
+            events.append(e)
+            sols.append(None if v is INVALID_GAIN else [[str(Fr(float(np.asarray(v).ravel()[0].real))), '0']])
+        fcase = dict(measured=[], overrides=None, tdefs=[['other']], per_dump=[0] * N)
+        w = wire_flux(fcase, sols, events)
+        sp = ctx.model([[142, [11, codes(t), N] + w[1][1:] + [per_dump]]])[0]
+        sp = [[parse_opv(e) for e in row] for row in sp[0]]
+        try:
+            out = np.asarray(d.sensor['Calibration/Corrections/l2/%s/%s' % (t, inps[0])])
+        except Exception as e:       # noqa: BLE001
+            return t, 'raises', 'raises:' + type(e).__name__, sp
+        g = dict(N=N, events=events, sols=sols, targets=per_dump if t != 'G' else None)
+        ctx.traces_validated += 1
+        ctx.count('opened:l2_correction_checked')
+        ctx.count('opened:l2_correction:targets=%d,solutions=%d,invalid_dumps=%s' % (
+            len(set(per_dump)), sum(1 for x in sols if x is not None),
+            'some' if any(r[0] is None for r in sp) and any(r[0] is not None for r in sp) else
+            'all' if all(r[0] is None for r in sp) else 'none'))
+        pos, sym = gain_symptom(g, out, sp)
+        if sym:
+            return t, '%s@%s' % (sym, pos), show(out), show_m(itertools.chain(*sp))
     return None
 
 
@@ -1364,6 +1408,19 @@ def spec_streams(tel, archived):
     return reg, l2
 
 
+V4_TARGETS = {'A': 'A, radec bpcal, 19:39:25.03, -63:42:45.6', 'B': 'B, radec gaincal, 10:00:00.0, -30:00:00.0',
+              'Cee': 'C | Cee, radec target, 05:00:00.0, -20:00:00.0'}
+
+
+def build_opened(case):
+    from fixtures import v4
+    from fixtures.c14streams import streams_hook
+    seq = case.get('target_seq') or [[0, 'A']]
+    return v4.build_v4(T=case['T'], F=case['F'], ants=tuple(case['ants']), telstate_hook=streams_hook(case['tel']),
+                       targets=tuple((dd, V4_TARGETS[n]) for dd, n in seq), archived_override=case['archived'],
+                       construct=False, tmp=v4.scratch_dir('c14'))
+
+
 def check_opened(ctx, case, v=None):
     """katdal's VisibilityDataV4(applycal=request) on a synthetic telstate: stream discovery, registration, name
     expansion and skipping / rejecting of missing products, observed at d.applycal_products"""
@@ -1372,14 +1429,15 @@ def check_opened(ctx, case, v=None):
     req = case['request'] if isinstance(case['request'], str) else list(case['request'])
     own = v is None
     if own:
-        v = v4.build_v4(T=case['T'], F=case['F'], ants=tuple(case['ants']), telstate_hook=streams_hook(case['tel']),
-                        archived_override=case['archived'], construct=False, tmp=v4.scratch_dir('c14'))
+        v = build_opened(case)
     isolate_templates()
-    raw_bad = None
+    raw_bad = corr_bad = None
     try:
         if case.get('raw'):
             # on a data set opened without applycal: nothing has been extracted yet, the raw product is still there
-            raw_bad = l2_product_mismatch(ctx, case, v4.reopen(v, open_kwargs=dict(applycal='')))
+            d0 = v4.reopen(v, open_kwargs=dict(applycal=''))
+            raw_bad = l2_product_mismatch(ctx, case, d0)
+            corr_bad = l2_corrections_mismatch(ctx, case, d0)
             isolate_templates()
         try:
             d = v4.reopen(v, open_kwargs=dict(applycal=req))
@@ -1411,6 +1469,11 @@ def check_opened(ctx, case, v=None):
         ctx.disagree('kind=opened;streams=%s;product=l2.%s;symptom=selfcal_solutions_of_all_targets' % (
             '+'.join(sreg) or 'none', raw_bad[0]), case, raw_bad[1], raw_bad[2],
             'the self-cal product of the data set is not the time-ordered union of the solutions of every target')
+    if corr_bad:
+        ctx.disagree('kind=opened;streams=%s;correction=l2.%s;symptom=%s' % ('+'.join(sreg) or 'none', corr_bad[0],
+                                                                             corr_bad[1]), case, corr_bad[2], corr_bad[3],
+                     'the self-cal correction of the data set is not the per-target interpolation of the solutions '
+                     'derived on the target of each dump', spec=corr_bad[3])
     if got != mo or mreg != sreg:
         ctx.disagree(sig + ';symptom=%s' % (symptom(got, mo) if got != mo else 'registered_streams'), case, got,
                      [mreg, mo], 'applycal_products differ from the model of _register_standard_cal_streams + '
@@ -1424,43 +1487,57 @@ def check_opened(ctx, case, v=None):
 
 def gen_tel(rng):
     ants = ['m000', 'm001', 'm002'][:rng.randint(1, 2)]
+    T = 6
+    focus = rng.random() < 0.4            # a well-formed self-cal data set with several targets
+    starts = [0] + sorted(rng.sample(range(1, T), rng.randint(1, 3) if focus else rng.randint(0, 3)))
+    names = ['A', 'B', 'Cee']
+    target_seq = []
+    for dd in starts:
+        target_seq.append([dd, rng.choice([n for n in names if not target_seq or n != target_seq[-1][1]])])
+    on = {n: [d for d in range(T) if [x for dd, x in target_seq if dd <= d][-1] == n] for n in names}
 
     def attrs(kind):
         my_ants = list(ants)
         r = rng.random()
-        if r < 0.1:
+        if focus:
+            pass
+        elif r < 0.1:
             my_ants = []
         elif r < 0.25 and len(my_ants) > 1:
             my_ants.pop(rng.randrange(len(my_ants)))
         if kind == 'cal':
             types = ['K', 'B', 'G'] if rng.random() < 0.4 else [t for t in TYPES if rng.random() < 0.5]
+        elif focus:
+            types = ['GPHASE'] if rng.random() < 0.5 else ['GPHASE', 'GAMP_PHASE']
         else:
             types = ['GPHASE'] if rng.random() < 0.4 else [t for t in TYPES if rng.random() < 0.4]
-        return dict(ants=my_ants, pols=['v', 'h'] if rng.random() < 0.8 else ['h', 'v'], spectral=rng.random() < 0.9,
-                    n_chans=rng.choice([1, 2]), types=types)
+        return dict(ants=my_ants, pols=['v', 'h'] if rng.random() < 0.8 else ['h', 'v'],
+                    spectral=focus or rng.random() < 0.9, n_chans=rng.choice([1, 2]), types=types)
     tel, archived = [], ['sdp_l0']
     for name in rng.sample(['cal', 'cal2', 'calx'], rng.randint(0, 2)):
         tel.append(dict(name=name, type='sdp.cal' if rng.random() < 0.85 else rng.choice([None, 'sdp.beamformer_engineering']),
                         targets=None, **attrs('cal')))
         if rng.random() < 0.85:
             archived.append(name)
-    for name in rng.sample(['continuum_image', 'img2'], rng.choice([0, 1, 1, 2])):
-        targets = rng.sample(['A', 'B', 'Cee'], rng.choice([0, 1, 1, 2, 2]))
-        tel.append(dict(name=name, type='sdp.continuum_image' if rng.random() < 0.9 else 'sdp.spectral_image',
+    for name in rng.sample(['continuum_image', 'img2'], 1 if focus else rng.choice([0, 1, 1, 2])):
+        targets = rng.sample(names, rng.choice([2, 3]) if focus else rng.choice([0, 1, 1, 2, 2]))
+        tel.append(dict(name=name, type='sdp.continuum_image' if focus or rng.random() < 0.9 else 'sdp.spectral_image',
                         targets=targets, targets_in_cb=rng.random() < 0.7, ants=[], pols=[], spectral=False,
                         n_chans=1, types=[]))
         shared = attrs('selfcal')          # self-cal runs on the same antennas / channels for every target
         for t in targets:
-            if rng.random() < 0.9:
+            if focus or rng.random() < 0.9:
                 mine = attrs('selfcal')
-                tel.append(dict(name='%s_%s_selfcal' % (name, t), type=None, targets=None,
-                                **dict(shared, types=mine['types'] if rng.random() < 0.5 else shared['types'])))
-        if rng.random() < 0.9:
+                # the solution of this target's substream is derived while the target is observed (mostly)
+                sol_dump = rng.choice(on[t]) if on[t] and rng.random() < 0.85 else rng.randrange(T)
+                tel.append(dict(name='%s_%s_selfcal' % (name, t), type=None, targets=None, sol_dump=sol_dump,
+                                **dict(shared, types=shared['types'] if focus or rng.random() < 0.5 else mine['types'])))
+        if focus or rng.random() < 0.9:
             archived.append(name)
     if rng.random() < 0.2:
         archived.append('ghost')
     rng.shuffle(archived)
-    return dict(tel=tel, archived=archived, ants=ants, T=3, F=2)
+    return dict(tel=tel, archived=archived, ants=ants, T=T, F=2, target_seq=target_seq)
 
 
 def opened_requests(rng, n):
@@ -1480,8 +1557,7 @@ def run_opened(ctx, rng, n_sets, n_req):
     from fixtures.c14streams import streams_hook
     for _ in range(n_sets):
         base = gen_tel(rng)
-        v = v4.build_v4(T=base['T'], F=base['F'], ants=tuple(base['ants']), telstate_hook=streams_hook(base['tel']),
-                        archived_override=base['archived'], construct=False, tmp=v4.scratch_dir('c14'))
+        v = build_opened(base)
         try:
             for k, req in enumerate(opened_requests(rng, n_req)):
                 check_opened(ctx, dict(base, kind='opened', request=req, raw=(k == 0)), v)
@@ -1622,8 +1698,8 @@ def run(ctx):
     timed('e2e', lambda: many(ctx.scale(100, 1500), check_end_to_end, gen_end_to_end))
     timed('select', lambda: many(ctx.scale(400, 6000), check_select, gen_select))
     timed('products', lambda: many(ctx.scale(400, 6000), check_products, gen_products))
-    timed('opened', lambda: run_opened(ctx, rng, ctx.scale(25, 300), 6))
-    timed('two_sets', lambda: many(ctx.scale(12, 150), check_two_sets, gen_two_sets))
+    timed('opened', lambda: run_opened(ctx, rng, ctx.scale(40, 300), 6))
+    timed('two_sets', lambda: many(ctx.scale(20, 150), check_two_sets, gen_two_sets))
 
     def normalise_all():
         todo = [(req, streams) for streams in STREAM_SETS for req in normalise_cases(ctx)]
